@@ -42,7 +42,7 @@ main (int argc, char **argv)
     for (std::size_t c = 0; c < vh::configs ().size (); ++c)
     {
       const vh::ConfigEntry& ce = vh::configs ()[c];
-      vh::RunOptions o; o.probes = vh::PR_C01 | vh::PR_C02 | vh::PR_TRACE;
+      vh::RunOptions o; o.probes = vh::PR_C01 | vh::PR_C02 | vh::PR_C03 | vh::PR_C04 | vh::PR_TRACE;
       o.verbose = argc > 2;
       if (argc > 3 && std::string (argv[3]) != ce.name) continue;
       vh::RunResult r;
